@@ -1,15 +1,12 @@
-(* C07 (round 3) — adam.go (adam.Run): stop condition, hook arguments, constraints for
-   returns by stop test / hook (NOT for the iteration cap: refuted below), evaluation cap. *)
+(* C07 (round 3, re-proved at HEAD d91fb9b) — adam.go (adam.Run): stop condition, hook arguments
+   (value included), constraints for EVERY non-error return (stop test, hook stop and iteration
+   cap), evaluation cap; regression of the retired finding F-ADAM-GENERIC-CAP. *)
 From Coq Require Import ZArith List Bool Lia Floats.
 From ADV Require Import Base.Num Base.Corr C07.Model C07.Spec C07.ProofsBase C07.ModelAdamGeneric C07.Corr C07.Refuted.
 Import ListNotations.
 Open Scope Z_scope.
 
 Local Arguments ad_upd : simpl never.
-
-(* the constraint guarantee that holds: returns by stop test or hook stop *)
-Definition accepted_unless_cap {A} (c : bool) (tr : trace (A := A)) (o : outcome (A := A)) : Prop :=
-  match o with Converged x | HookStop x => accepted c tr x | _ => True end.
 
 Section AdamG.
 Context {A : Type} (NM : Num A).
@@ -22,19 +19,21 @@ Notation good := (good F HK CS).
 Notation trace := (trace (A := A)).
 Ltac nonconv := let x := fresh "x" in let X := fresh "X" in intros x X; discriminate X.
 
+(* At HEAD (fix d91fb9b) x1 is always the last evaluated and accepted point, so the
+   constraints statement is the full one: stop test, hook stop AND iteration cap. *)
 Definition ag_post (n0 : nat) (i : Z) (o : outcome (A := A)) (tr : trace) : Prop :=
-  good tr /\ (forall x, o = Converged x -> stop_ok NM (ad_eps P) tr x) /\ accepted_unless_cap (ad_cons P) tr o /\
+  good tr /\ (forall x, o = Converged x -> stop_ok NM (ad_eps P) tr x) /\ point_accepted (ad_cons P) tr o /\
   (n_evals tr <= n0 + Z.to_nat (ad_maxit P - i))%nat.
 
-Lemma ag_loop_ok fuel : forall i x m v b1t b2t tr, good tr ->
-  ag_post (n_evals tr) i (fst (ag_loop NM F HK CS P fuel i x m v b1t b2t tr))
-                         (snd (ag_loop NM F HK CS P fuel i x m v b1t b2t tr)).
+Lemma ag_loop_ok fuel : forall i x1 x m v b1t b2t tr, good tr -> accepted (ad_cons P) tr x1 ->
+  ag_post (n_evals tr) i (fst (ag_loop NM F HK CS P fuel i x1 x m v b1t b2t tr))
+                         (snd (ag_loop NM F HK CS P fuel i x1 x m v b1t b2t tr)).
 Proof.
   unfold ag_post.
-  induction fuel as [|f IH]; intros i x m v b1t b2t tr G; simpl.
+  induction fuel as [|f IH]; intros i x1 x m v b1t b2t tr G Hacc1; simpl.
   { ssplit; [exact G | nonconv | exact I | lia]. }
   destruct (i <? ad_maxit P) eqn:Hi; simpl.
-  2:{ ssplit; [exact G | nonconv | exact I | lia]. }
+  2:{ ssplit; [exact G | nonconv | exact Hacc1 | lia]. }
   apply Z.ltb_lt in Hi.
   assert (Hz : Z.to_nat (ad_maxit P - i) = S (Z.to_nat (ad_maxit P - (i + 1)))) by lia.
   remember (F (length tr) (QGrad x)) as a eqn:Ha.
@@ -73,7 +72,8 @@ Proof.
     intros x' X. inversion X; subst x'. exists a. ssplit; auto.
     eapply ext_in; [exact E3|]. eapply ext_in; [exact E2 | left; reflexivity]. }
   destruct (ad_upd NM P x m v (a_g a) b1t b2t) as [[[x2' m'] v']|]; simpl.
-  - specialize (IH (i + 1) x2' m' v' (mul NM b1t (ad_beta1 P)) (mul NM b2t (ad_beta2 P)) tr3 G3).
+  - assert (Hacc3 : accepted (ad_cons P) tr3 x) by (eapply accepted_ext; eauto).
+    specialize (IH (i + 1) x x2' m' v' (mul NM b1t (ad_beta1 P)) (mul NM b2t (ad_beta2 P)) tr3 G3 Hacc3).
     destruct IH as (G4 & S4 & A4 & N4). ssplit; [exact G4 | exact S4 | exact A4 | lia].
   - ssplit; [exact G3 | nonconv | exact I | lia].
 Qed.
@@ -88,13 +88,16 @@ Proof.
   { subst tr0. destruct (ad_cons P); [|apply good_nil]. subst ok.
     apply (good_cons F HK CS [] x0). apply good_nil. }
   assert (N0 : n_evals tr0 = 0%nat) by (subst tr0; destruct (ad_cons P); reflexivity).
+  assert (Hacc : ok = true -> accepted (ad_cons P) tr0 x0).
+  { unfold accepted. intros -> Hc. subst tr0. rewrite Hc. left; reflexivity. }
   clear Htr0 Hok.
   destruct ok; cbn [negb fst snd].
   2:{ unfold ag_post; ssplit; [exact G0 | nonconv | exact I | lia]. }
-  pose proof (ag_loop_ok fuel 0 x0 (repeat (zero NM) (length x0)) (repeat (zero NM) (length x0))
-                (ad_beta1 P) (ad_beta2 P) tr0 G0) as L.
+  pose proof (ag_loop_ok fuel 0 x0 x0 (repeat (zero NM) (length x0)) (repeat (zero NM) (length x0))
+                (ad_beta1 P) (ad_beta2 P) tr0 G0 (Hacc eq_refl)) as L.
   rewrite N0 in L. exact L.
 Qed.
+
 
 Lemma adam_generic_stop_l fuel x0 x tr :
   adam_generic NM F HK CS P fuel x0 = (Converged x, tr) -> wf F HK CS tr /\ stop_ok NM (ad_eps P) tr x.
@@ -105,17 +108,18 @@ Qed.
 Lemma adam_generic_hooks_l fuel x0 : hooks_ok (snd (adam_generic NM F HK CS P fuel x0)).
 Proof. destruct (adam_generic_ok fuel x0) as (G & _). apply good_hooks_ok in G. exact G. Qed.
 Lemma adam_generic_cons_l fuel x0 :
-  accepted_unless_cap (ad_cons P) (snd (adam_generic NM F HK CS P fuel x0)) (fst (adam_generic NM F HK CS P fuel x0)).
+  point_accepted (ad_cons P) (snd (adam_generic NM F HK CS P fuel x0)) (fst (adam_generic NM F HK CS P fuel x0)).
 Proof. apply (adam_generic_ok fuel x0). Qed.
 Lemma adam_generic_cap_l fuel x0 :
   (n_evals (snd (adam_generic NM F HK CS P fuel x0)) <= Z.to_nat (ad_maxit P))%nat.
 Proof. pose proof (adam_generic_ok fuel x0) as K. destruct K as (_ & _ & _ & K). simpl in K. lia. Qed.
 End AdamG.
 
-(* refuted (known finding F-ADAM-GENERIC-CAP): adam.Run(f(x) = x^2, x0 = 1, MaxIterations 1, constraint
-   x >= 1): the point returned at the cap was never evaluated, never submitted, and violates the constraint *)
-Lemma adam_generic_cap_constraints_refuted_l :
+(* regression (was F-ADAM-GENERIC-CAP, fixed by d91fb9b): adam.Run(f(x) = x^2, x0 = 1, MaxIterations 1,
+   constraint x >= 1): the point returned at the cap is the evaluated, submitted and accepted x0 — before
+   the fix it was the updated point 0.999, never evaluated, never submitted, violating the constraint *)
+Lemma adam_generic_cap_constraints_regression_l :
   exists x tr, adam_generic NumF Fsq noHK ge1 P4 10 [1%float] = (Cap x, tr) /\
-     ge1 0%nat x = false /\ submitted_and_accepted tr x = false /\
-     existsb (fun e => match e with EvEval (QGrad y) _ => list_eqb feqb x y | _ => false end) tr = false.
+     ge1 0%nat x = true /\ submitted_and_accepted tr x = true /\
+     existsb (fun e => match e with EvEval (QGrad y) _ => list_eqb feqb x y | _ => false end) tr = true.
 Proof. do 2 eexists; split; [vm_compute; reflexivity | repeat split; vm_compute; reflexivity]. Qed.
